@@ -117,6 +117,11 @@ func (h Middleware) mergeHeaders(l, r http.Header) http.Header {
 	}
 
 	for k, vv := range r {
+		if _, exists := out[k]; !exists && len(vv) == 0 {
+			// a header without values (the X-Push marker every resource gets from
+			// the setup) must reach the pushed request too: ServeHTTP tests for the key
+			out[k] = []string{}
+		}
 		for _, v := range vv {
 			out.Add(k, v)
 		}
